@@ -48,6 +48,22 @@ pub fn run(args: &Args) {
             }
             if samples.len() < 3 && n_lookups % 1500 == 2 { samples.push(json!({"fen": fen, "moves": moves})); }
         }
+        // positions are identified by placement, side to move, castling rights and en-passant availability: the same position
+        // met with other counters (a longer history, a transposition late in a game) has the same recorded moves
+        if let Some(fen) = fens[key].iter().next() {
+            let f: Vec<&str> = fen.split_whitespace().collect();
+            let counters: &[(u32, u32)] = if f[3] != "-" { &[(0, 6), (0, 60)] } else { &[(0, 1), (37, 6), (3, 60), (99, 120)] };
+            for (half, full) in counters {
+                let alt = format!("{} {} {} {} {} {}", f[0], f[1], f[2], f[3], half, full);
+                if fens[key].contains(&alt) { continue; }
+                n_lookups += 1;
+                let (_, got) = lookup(&alt);
+                if got != *moves {
+                    out.ev(json!({"prop": "C16", "kind": "book offers a different move set for the same position met with other move counters", "fen": alt, "key": key,
+                                  "missing": moves.difference(&got).collect::<Vec<_>>(), "extra": got.difference(moves).collect::<Vec<_>>()}));
+                }
+            }
+        }
     }
     // other histories reaching a book placement: whatever is offered must be legal there (legal set from the specification)
     let mut n_var = 0u64;
